@@ -93,7 +93,9 @@ def main(argv):
     # ---- evidence
     ev = build_evidence(pid, prop, tier, seed, results, wall, failures, known_hits, undecided)
     os.makedirs(os.path.join(VERIF, 'evidence'), exist_ok=True)
-    with open(os.path.join(VERIF, 'evidence', pid + '.json'), 'w') as fh:
+    # a development run of selected parts must not replace the evidence of a full run
+    ev_path = os.path.join(workdir, 'evidence-partial.json') if only else os.path.join(VERIF, 'evidence', pid + '.json')
+    with open(ev_path, 'w') as fh:
         json.dump(ev, fh, indent=1)
     # ---- report
     seen = set()
